@@ -63,6 +63,18 @@ Theorem C16_add_every_owned_target : forall owns stored env,
   /\ forall t, In t ts -> owns t = true -> exists cp, collection_prop (stored t) = Ok cp.
 Proof. intros owns stored env H1 H2 H3 H4 a ops ts. exact (add_updates_owned owns stored env H1 H2 H3 H4 a ops ts). Qed.
 
+(* Remove, likewise: the Updates issued are exactly those of the owned targets, in order, each writing remove_spec of what was stored *)
+Theorem C16_remove_every_owned_target : forall owns stored env,
+  (forall i, env (ELock i) = AOk) -> (forall i, env (EDb "Owns" [JStr i]) = ABool (owns i)) ->
+  (forall i, env (EDb "Get" [JStr i]) = AJson (stored i)) -> (forall x, env (EDb "Update" [x]) = AOk) ->
+  forall a ops ts, ids_of "object" a = Ok ops -> ids_of "target" a = Ok ts ->
+  fst (run_env env (remove a)) = Ok tt ->
+  updates (snd (run_env env (remove a))) =
+    flat_map (fun t => if owns t then match collection_prop (stored t) with
+                                      | Ok cp => match remove_spec cp ops (stored t) with Ok tp' => [EDb "Update" [canon tp']] | _ => [] end
+                                      | _ => [] end else []) ts.
+Proof. intros owns stored env H1 H2 H3 H4 a ops ts. exact (remove_updates_owned owns stored env H1 H2 H3 H4 a ops ts). Qed.
+
 (* the hypotheses are met: a target this server does not own, then one it owns *)
 Definition ex_owned : string := "https://example.com/cols/1".
 Definition ex_env (e : ev) : ans :=
@@ -111,3 +123,4 @@ Print Assumptions C16_remove_owned_only.
 Print Assumptions C16_block_never_delivered.
 Print Assumptions C16_missing_changes_nothing.
 Print Assumptions C16_add_every_owned_target.
+Print Assumptions C16_remove_every_owned_target.
